@@ -76,6 +76,8 @@ def bfs_item(item, acc):
                 continue
             if (ev[0] == "dA" and not st.cp.outbox("A")) or (ev[0] == "dB" and not st.cp.outbox("B")):
                 continue
+            if ev[0] == "combine" and st.cp.b.combine_stderr:
+                continue
             nxt = chanflow.build(cfg, hist + [ev])
             n_trans += 1
             acc.ev()
